@@ -530,6 +530,13 @@ def binop(eng, st, op, a, b, node):
         else:
             has = z3.Lambda([k], z3.And(z3.Select(sa.has, k), z3.Not(z3.Select(sb.has, k))))
         r = SSet(sa.tk, has)
+        if isinstance(op, ast.BitOr):
+            # cardinality facts of a union, stated on the same uninterpreted `card` that len() uses (extensionality between a lambda and a
+            # constant array is beyond the solvers): empty iff both are empty; at least the larger, at most the sum
+            asort = z3.ArraySort(sa.tk.z3sort(), z3.BoolSort())
+            cardf = _uf(f"card<{sa.tk.z3sort()}>", asort, z3.IntSort())
+            ca_, cb_, cr_ = cardf(sa.has), cardf(sb.has), cardf(has)
+            st.assume(ca_ >= 0, cb_ >= 0, (cr_ == 0) == z3.And(ca_ == 0, cb_ == 0), cr_ >= ca_, cr_ >= cb_, cr_ <= ca_ + cb_)
         yield st, (st.alloc(r, "set") if isinstance(a, Loc) else r)
         return
     if isinstance(op, (ast.BitAnd, ast.BitOr)) and isinstance(a, (bool, SBool)) and isinstance(b, (bool, SBool)):
